@@ -55,6 +55,8 @@ def op_list(draw, kind, two, allow_join, n_max, allow_buffer=True):
                 cands += ["zip2", "zip2", "union2", "union2"]
         else:
             cands += ["map_tsum", "map_tsum"]
+            if kind == "tuple":
+                cands += ["partition"]      # tuples of tuples (of futures, in the Dask run)
             if kind == "pair":
                 cands += ["starmap_pair"] * 4
             elif ops and (ops[-1][:2] == ["partition", 2] or ops[-1][:3] == ["sliding_window", 2, False]):
